@@ -10,6 +10,7 @@ INVARIANTS
   C07_Notif_EstablishedOpen_KF
   C07_Notif_UnsupportedOptParam_KF
   C07_Notif_KeepaliveLength_KF
+  C07_Notif_OpenWhileIdle_KF
   C07_Notif_ManualStopEarly_KF
   C07_Notif_NoSpurious_KF
   C07_Timer_OpenConfirm_KF
